@@ -52,7 +52,7 @@ ROLES = {
             ':mod-of~2'],
     'custom': [':r-of', ':s-of', ':s-of-of', ':q1-of~3'],
 }
-ATOMS = ['a', 'b', 'x', None, 'b~e.4', '"a"']
+ATOMS = ['a', 'b', 'x', None, 'b~e.4', '"a"', '"q \\"r\\""~s5', 'x~t6']
 CONCEPTS = [NO_CONCEPT, 'x', None, 'b', 'y~5']
 ROLES_S = {k: v[:3] for k, v in ROLES.items()}
 ATOMS_S = ['a', 'b', 'x']
